@@ -45,6 +45,11 @@ def bulk_script(name, rng, dgram, variant):
 
 def run(ctx):
     if ctx.replay:
+        # replay files of the DoH/DoQ extension carry a stream signature
+        sig = vlib.json.load(open(ctx.replay)).get("signature", "")
+        if sig.startswith(("doh:", "doq:", "stream:")) or "transport" in (vlib.json.load(open(ctx.replay)).get("replay") or {}):
+            import stream_extra
+            return stream_extra.run_extra(ctx)
         return pc.replay(ctx, TRACE_CFG)
     T = ctx.thorough()
     rng = random.Random(ctx.seed)
@@ -88,7 +93,7 @@ def run(ctx):
                                     qid0=65536 - rng.choice([1, 1, 2, 3])))
         meta.append(None)
     for k, v in enumerate((["skip", "dup", "abandoned"] * (4 if T else 1))):
-        scripts.append(bulk_script("bulk.%s.%d" % (v, k), rng, dgram=(k % 2 == 1), variant=v))
+        scripts.append(bulk_script("bulk.%s.%d" % (v, k), rng, dgram=False, variant=v))  # stream only (UDP would resend during the bulk)
         meta.append(None)
     nrand = 600 if T else 80
     for i in range(nrand):
@@ -128,3 +133,7 @@ def run(ctx):
         pc.mutate_check(ctx, recs, TRACE_CFG, rng)
     for r in [recs[i] for i, _, _ in rej[:2]] + [r for r in recs if r["name"].startswith("bulk")][:1] + recs[:1]:
         ctx.sample({"name": r["name"], "steered": r["steered"], "trace": r["trace"][:60]})
+
+    # ---- DoH / DoQ (one private request / stream per call): spec/StreamPerQuery.tla, harness/drv_stream
+    import stream_extra
+    stream_extra.run_extra(ctx)
